@@ -32,7 +32,14 @@ pub enum XOp {
     /// reopen without any external action
     Reopen,
     /// reset_flw to family #n (other basename / directory / rotation setting)
-    Reset { family: usize, other_mode: bool },
+    Reset {
+        family: usize,
+        other_mode: bool,
+        /// the new state is built without append (only used for rotating families, where the
+        /// previous current file is then preserved as a rotated file)
+        #[serde(default)]
+        no_append: bool,
+    },
 }
 
 #[derive(Clone, Debug, Serialize, Deserialize)]
@@ -137,7 +144,7 @@ impl Property for P {
                     2 => (prop::collection::vec(len, 0..3), any::<bool>()).prop_map(|(between, recreate)| XOp::RenameReopen { between, recreate }),
                     1 => any::<bool>().prop_map(|recreate| XOp::RemoveReopen { recreate }),
                     1 => Just(XOp::Reopen),
-                    2 => (0..nf, prop::bool::weighted(0.15)).prop_map(|(family, other_mode)| XOp::Reset { family, other_mode }),
+                    2 => (0..nf, prop::bool::weighted(0.15), prop::bool::weighted(0.4)).prop_map(|(family, other_mode, no_append)| XOp::Reset { family, other_mode, no_append }),
                 ];
                 (Just(families), prop::collection::vec(op, 1..30))
             })
@@ -261,7 +268,7 @@ impl Property for P {
                     unflushed = 0;
                     kinds.insert("reopen");
                 }
-                XOp::Reset { family, other_mode } => {
+                XOp::Reset { family, other_mode, no_append } => {
                     let mut target = case.families[*family].clone();
                     if *other_mode {
                         target.mode = match target.mode {
@@ -276,7 +283,12 @@ impl Property for P {
                             target.mode = Mode::BufDontFlush(c);
                         }
                     }
-                    let b = flw_builder(&target, &fam_dir(&sc, *family), true, None);
+                    // without rotation a re-open without append truncates (documented): append there
+                    let append = !(*no_append && target.rot.is_some());
+                    if !append {
+                        out.class("reset-without-append");
+                    }
+                    let b = flw_builder(&target, &fam_dir(&sc, *family), append, None);
                     let r = sess.reset(&b);
                     if *other_mode {
                         if r.is_ok() {
